@@ -366,6 +366,32 @@ theorem chiral_full_invariant_of_inequivalent_elements (h : TupleHash) (single d
   cases he with
   | some hrr => exact .ranks hrr
 
+open ChythonModel.Model.ChiralMorgan ChythonModel.Model.ChiralFull ChythonModel.Model.Stereo in
+/-- every group of labelled stereo elements that share a grouping key has an ODD number of members (in particular: one) -/
+def OddGroupsOnly (h : TupleHash) (single dbl : Nat → Bool) (mol : MolView) (labels : List (Nat × Bool))
+    (r0 : List (Nat × Nat)) : Prop :=
+  atomsOrder h mol = some r0 ∧
+  ∃ (tet : List Nat) (T : Tables) (terminals : List (Nat × (Nat × Nat))) (pairs : List (Nat × Nat))
+    (keyedT : List (Nat × Int)) (keyedC : List (CTItem × Int)) (keyedA : List (Nat × Int)),
+    tetrahedrons mol = .ok tet ∧ tablesOf single dbl mol labels = .ok (T, terminals) ∧
+    exMapM (getKey terminals) (stereoBondAtoms mol.bonds) = .ok pairs ∧
+    exMapM (keyOf (toWeights r0)) ((labels.map (·.1)).filter tet.contains) = .ok keyedT ∧
+    (∀ g ∈ groupsBy keyedT, g.length % 2 = 1) ∧
+    exMapM (ctKey (toWeights r0)) (dedupPairs pairs) = .ok keyedC ∧ (∀ g ∈ groupsBy keyedC, g.length % 2 = 1) ∧
+    exMapM (keyOf (toWeights r0)) ((labels.map (·.1)).filter fun n => !tet.contains n) = .ok keyedA ∧
+    (∀ g ∈ groupsBy keyedA, g.length % 2 = 1)
+
+open ChythonModel.Model.ChiralMorgan ChythonModel.Model.ChiralFull in
+/-- **root cause of known finding 3, for every molecule**: `__differentiation` only looks at groups of even size, so when the
+    equivalent labelled elements of a molecule come in odd numbers (1, 3, 5, …) their configurations — R,R,S or E,E,Z included
+    — never change the classes: `_chiral_morgan = atoms_order`, the stereo-blind classes. (For 1 this is what one wants; for
+    3, 5, … it leaves distinguishable atoms in one class and the writer breaks the tie by atom number: the known finding.) -/
+theorem chiral_full_ignores_odd_groups (h : TupleHash) (single dbl : Nat → Bool) (mol : MolView)
+    (labels : List (Nat × Bool)) (r0 : List (Nat × Nat)) (hog : OddGroupsOnly h single dbl mol labels r0) :
+    chiralFull h single dbl mol labels = .ranks r0 := by
+  obtain ⟨hr, tet, T, terminals, pairs, kT, kC, kA, ht, hT, hp, hkt, hdt, hkc, hdc, hka, hda⟩ := hog
+  exact chiralFull_odd h single dbl mol labels r0 tet T terminals pairs kT kC kA hr ht hT hp hkt hdt hkc hdc hka hda
+
 open ChythonModel.Model.ChiralFull in
 /-- **`MoleculeStereo.cumulenes` never depends on the atom numbers**: renaming every atom by an injective `π` (insertion
     orders kept) renames every chain, same chains in the same order — through the mutable `adj` / `terminals` walk, its
@@ -663,6 +689,31 @@ example : ChiralFull.chiralFull toyHash (fun _ => true) dblT (exEZ false) [] =
 /-- the renamed E/Z pair gives the renamed result (instance of `chiral_full_renaming_equivariant`, evaluated) -/
 example : ChiralFull.chiralFull toyHash (fun _ => true) dblT (renMol (· + 10) (exEZ false)) [] =
     .ranks [(11, 1), (15, 2), (14, 3), (18, 4), (12, 5), (16, 6), (13, 7), (17, 8)] := by decide +kernel
+
+/-- F–CH=CH–Cl three times, labels E, E, Z: ONE group of three equivalent labelled double bonds -/
+def exEZ3 : MolView :=
+  ⟨[(1, { z := 9, implH := some 0 }), (2, { z := 6, implH := some 1 }), (3, { z := 6, implH := some 1 }),
+    (4, { z := 17, implH := some 0 }), (5, { z := 9, implH := some 0 }), (6, { z := 6, implH := some 1 }),
+    (7, { z := 6, implH := some 1 }), (8, { z := 17, implH := some 0 }), (9, { z := 9, implH := some 0 }),
+    (10, { z := 6, implH := some 1 }), (11, { z := 6, implH := some 1 }), (12, { z := 17, implH := some 0 })],
+   [(1, [(2, ⟨1, none⟩)]), (2, [(1, ⟨1, none⟩), (3, ⟨2, some true⟩)]), (3, [(2, ⟨2, some true⟩), (4, ⟨1, none⟩)]),
+    (4, [(3, ⟨1, none⟩)]),
+    (5, [(6, ⟨1, none⟩)]), (6, [(5, ⟨1, none⟩), (7, ⟨2, some true⟩)]), (7, [(6, ⟨2, some true⟩), (8, ⟨1, none⟩)]),
+    (8, [(7, ⟨1, none⟩)]),
+    (9, [(10, ⟨1, none⟩)]), (10, [(9, ⟨1, none⟩), (11, ⟨2, some false⟩)]), (11, [(10, ⟨2, some false⟩), (12, ⟨1, none⟩)]),
+    (12, [(11, ⟨1, none⟩)])]⟩
+
+/-- the hypothesis of `chiral_full_ignores_odd_groups` holds for it (a group of size 3, not a singleton) -/
+example : OddGroupsOnly toyHash (fun _ => true) dblT exEZ3 []
+    [(1, 1), (5, 1), (9, 1), (4, 2), (8, 2), (12, 2), (2, 3), (6, 3), (10, 3), (3, 4), (7, 4), (11, 4)] := by
+  refine ⟨by decide +kernel, [],
+    ⟨[], [], [((2, 3), ⟨1, 4, none, none⟩), ((6, 7), ⟨5, 8, none, none⟩), ((10, 11), ⟨9, 12, none, none⟩)], [],
+      [(2, (2, 3)), (3, (2, 3)), (6, (6, 7)), (7, (6, 7)), (10, (10, 11)), (11, (10, 11))], exEZ3⟩,
+    [(2, (2, 3)), (3, (2, 3)), (6, (6, 7)), (7, (6, 7)), (10, (10, 11)), (11, (10, 11))],
+    [(2, 3), (2, 3), (6, 7), (6, 7), (10, 11), (10, 11)], [],
+    [((2, (2, 3)), 3), ((6, (6, 7)), 3), ((10, (10, 11)), 3)], [],
+    by decide +kernel, by decide +kernel, by decide +kernel, by decide +kernel, by decide, by decide +kernel,
+    by decide, by decide +kernel, by decide⟩
 
 /-- two components penta-2,3-diene CH3–CH=C=CH–CH3, labels on the two allene centres -/
 def exAl : MolView :=
